@@ -7,6 +7,35 @@ HOOK_COMMITS = ["c3d3db1"]
 FIX_COMMITS = ["b26044a"]
 
 CHECKS = {
+ "C01": dict(
+    text="The TLA+ glyph algebra (Resolve, decomposition, reversal of mirrored components, exact rounding with tolerance) "
+         "is model-checked exhaustively at small scope, and every recorded compileOTF execution (hook events PreStart, "
+         "Filter*, Preprocessed, Outlines, Postprocessed + reloaded font) is validated step by step by TLC: model successor "
+         "per filter stage, final outline/advance equal to the rounded Resolve of the SOURCE.",
+    note="Trusted: TLC; fontTools CFF decoder + RecordingPen as observation; exact dyadic input domain.",
+    technique="TLA+ pipeline specification; TLC exhaustive check + event-by-event TLC trace validation of compileOTF",
+    design="5 C01"),
+ "C02": dict(
+    text="As C01 for compileTTF: TLC validates every recorded execution against the TrueType expectations derived from the "
+         "source in TLA+ (mixed glyphs decomposed, flatten = FlatComp, point-level reversal, F2Dot14 overflow decomposition, "
+         "component records, maxp counts); cubic conversion error enters as a measured observation bounded by the spec.",
+    note="Trusted: TLC; fontTools glyf decompiler; cu2qu error is measured by dense sampling in the harness.",
+    technique="TLA+ pipeline specification; TLC trace validation of compileTTF executions + exhaustive filter-algebra check",
+    design="5 C02"),
+ "C12": dict(
+    text="CffOptions.tla models the option routing of the CFF path and is checked exhaustively (all 18 combinations); every "
+         "combination is executed on generated sources and each trace is validated by TLC against the same source-derived "
+         "outline expectation as C01, equal advances, byte-equal layout tables, NotImplementedError exactly when unsupported.",
+    note="Trusted: TLC; fontTools charstring interpreter for subroutinised/CFF2 charstrings; cffsubr/compreffor are environment.",
+    technique="TLA+ option-routing model checked exhaustively + TLC trace validation of all 18 option combinations",
+    design="5 C12"),
+ "C13": dict(
+    text="SkipExport is model-checked exhaustively (all skip subsets x 3-glyph graphs x orders) and every recorded compile "
+         "with a skip list (argument or lib key, CFF and TrueType) is validated by TLC: skipped glyphs absent from order / "
+         "cmap / metrics, remaining glyphs keep their contour multiset and advance, order of remaining glyphs unchanged.",
+    note="Trusted: TLC; projections of glyf/CFF/cmap; kerning/marks between remaining glyphs are covered by C05/C06 cases with skip lists.",
+    technique="TLA+ SkipExport model; TLC exhaustive check + TLC trace validation of compiles with and without skipping",
+    design="5 C13"),
  "C14": dict(
     text="TLC exhaustively checks the BaseFilter visiting protocol (depth-sorted loop, every admissible order, include sets, "
          "modified bookkeeping) for the modelled filters; every recorded invocation history of the real filter objects "
